@@ -16,6 +16,11 @@ import (
 type abortPanic struct{}
 
 func newScheduler(i *interpreter, maxPreempt int) *scheduler {
+	if maxPreempt < 0 {
+		// one schedule only: run each goroutine until it blocks or ends, then
+		// the lowest-numbered enabled one
+		return &scheduler{i: i, maxPreempt: 0, single: true}
+	}
 	return &scheduler{i: i, maxPreempt: maxPreempt}
 }
 
@@ -49,7 +54,7 @@ func (s *scheduler) pick(fr *frame, allowCur bool) *goroutine {
 		return nil
 	}
 	k := 0
-	if len(cands) > 1 {
+	if len(cands) > 1 && !s.single {
 		k = s.i.p.choose(fr, len(cands))
 	}
 	g := cands[k]
